@@ -165,6 +165,9 @@ impl Display for HopPredicate {
         write!(f, "{}", self.isd)?;
         if let Some(asn) = &self.asn {
             write!(f, "-{asn}")?;
+        } else if !matches!(self.interfaces, InterfacesPredicate::Any) {
+            // interfaces can only be written after an AS: spell out the AS wildcard
+            write!(f, "-{}", Asn::WILDCARD)?;
         }
         match &self.interfaces {
             InterfacesPredicate::Any => {}
